@@ -283,7 +283,8 @@ def r_keys(P, R):
                             c.ops) == 1 and isinstance(
                                 c.ops[0], ast.Eq) and au.const_int(
                                     c.comparators[0]) is not None and \
-                            isinstance(c.left, ast.Name):
+                            (isinstance(c.left, ast.Name)
+                             or au.chain(c.left)):
                         vals.append(au.const_int(c.comparators[0]))
                 sub = Infer(inf2.env, EQUIV)
                 sub.run(s.body)
